@@ -437,6 +437,15 @@ Qed.
 Lemma no_bounds_with : forall c s p o, no_bounds (with_SPO c s p o) = no_bounds c.
 Proof. reflexivity. Qed.
 
+(* without bound bindings the row gives no window *)
+Lemma rbo_true : forall c mu t, d3c c -> row_bounds_ok c mu t = true.
+Proof.
+  intros c mu t D. pose proof (d_nb c D) as Hnb. unfold no_bounds in Hnb.
+  apply andb_prop in Hnb. destruct Hnb as [Hnb _]. apply andb_prop in Hnb. destruct Hnb as [Hnb _].
+  apply andb_prop in Hnb. destruct Hnb as [Hlo Hup].
+  unfold row_bounds_ok, row_bound. rewrite Hlo, Hup. destruct (panchor (tpred t)); reflexivity.
+Qed.
+
 (* ---------- the specialised fetch, filtered by compatibility with the row = the specification's extensions of the row *)
 Lemma fetch_filtered : forall e gs glo c mu mu',
   d3c c -> ks e = true -> fixoid e = true -> fixsb e = true ->
@@ -455,7 +464,7 @@ Proof.
   unfold c5 at 1. unfold specialise. rewrite rows_of_with. fold (specialise e c mu). fold c5.
   rewrite (rows_of_rowopt e c _ Hoid D), flat_map_map_filter.
   rewrite map_filter_flat_map.
-  apply Forall2_flat_map. intros t.
+  apply Forall2_flat_map. intros t. rewrite (rbo_true c mu' t D). cbn [andb].
   pose proof (per_triple e c glo mu mu' t D Hks Hn Hm) as P. unfold Mt, St in P. fold c5 in P.
   destruct (fm e c5 glo t); [|exact P].
   destruct (rowopt c (rebuilt c5 t)) as [r|]; [|exact P].
